@@ -19,7 +19,7 @@ from dsim.world import World
 ID = 'C11'
 LEVEL = 'exploration'
 CLASSES = [('header_damage', 1)]
-TIERS = {'quick': {'runs': 10000}}
+TIERS = {'quick': {}}
 ALPHABET = [b'a', b'B', b'z', b'0', b'9', b'_', b'-', b'.', b'/', b',',
             b'=', b':', b'#', b'+', b' ', b'\t', b'\xc3\xa9', b'\xff',
             b', ', b'k=v', b'1']
